@@ -34,6 +34,14 @@ add('C04', "property-based testing: differential against the regex crate over th
     "exploration: ~60 API calls per (pattern, text) compared with regex::Regex; exhaustive small trees, flag variants, named groups, random ASTs", "trusted: the regex crate as oracle; one-sided compile failures are counted, not judged", "DESIGN.md section 5 C04")
 add('C06', "fuzzing / property-based testing: exhaustive token sequences + proptest random token sequences and mutations of valid patterns, run in worker processes under a counting allocator and RLIMIT_AS",
     "exploration: every generated string is compiled through Regex::new, Expr::parse_tree and RegexBuilder; panic, overflow, crash, oversized allocation or an out-of-range error position is a counterexample", "trusted: the counting allocator and the 256 MiB + 4 MiB*len peak cap as the stand-in for 'memory proportional to the pattern'; wall clock is only a watchdog", "DESIGN.md section 5 C06")
+add('C12', "property-based testing: exhaustive templates over a syntax alphabet + proptest fragment sequences against an independent template scanner; escape round-trip; one-directional check() relation",
+    "exploration: every template x 6 capture sets x 2 expanders through all five expansion entry points", "trusted: the template model written from the doc comments (harness/src/model.rs)", "DESIGN.md section 5 C12")
+add('C14', "property-based testing: metamorphic (builder option vs (?i) prefix, neutral options vs none) + differential on delegate_size_limit against regex::RegexBuilder::size_limit applied to the delegated pieces",
+    "exploration: option combinations on every generated (pattern, text, offset); size-limit accept/reject compared per delegated piece", "trusted: regex::RegexBuilder::size_limit forwards to the same NFA size limit", "DESIGN.md section 5 C14")
+add('C17', "property-based testing: exhaustive short strings over all meta-characters + proptest strings, escaped and embedded in host patterns, against str::find",
+    "exploration: find span == str::find span on texts derived from each string (embedded, doubled, near misses) for 9 hosts; borrow and shape of escape", "trusted: str::find", "DESIGN.md section 5 C17")
+add('C20', "property-based testing: stateful model-based test of the VM backtracking state (exhaustive short histories + proptest long histories with bursts) against a whole-state-copy model; program-level companion vs the reference matcher",
+    "exploration: every step of every generated history compared (slots, branch count, auxiliary stack, pop results), final unwind included", "trusted: the hook wrapper forwards unchanged to the private State; the copy model is ~40 lines", "DESIGN.md section 5 C20")
 
 import os
 TABLE = '/verif/tools/manifest_table.json'
